@@ -397,6 +397,33 @@ def accum_for_split(sizes):
 
 @functools.lru_cache(maxsize=2**15)
 def calc_reshape_args(shape, newshape, subsizes):
+    """Compute the sequence of axes to unfuse, fuse and expand to reshape an
+    array, see :func:`_calc_reshape_args`. Since the sizes of previously fused
+    axes can match the new shape purely by coincidence (e.g. if sparsity has
+    shrunk a fused axis to the size of its first subindex), this falls back
+    to treating such axes as not unfusable if no valid sequence is found.
+    """
+    if shape == newshape:
+        # nothing to do
+        return (), (), ()
+
+    try:
+        return _calc_reshape_args(shape, newshape, subsizes)
+    except ValueError:
+        for i, subsize in enumerate(subsizes):
+            if subsize is not None:
+                try:
+                    return calc_reshape_args(
+                        shape,
+                        newshape,
+                        subsizes[:i] + (None,) + subsizes[i + 1 :],
+                    )
+                except ValueError:
+                    pass
+        raise
+
+
+def _calc_reshape_args(shape, newshape, subsizes):
     """Given a current block sparse shape ``shape`` a target shape ``newshape``
     and current sub index sizes ``subsizes`` (i.e. previously fused dimensions)
     compute the sequence of axes to unfuse, fuse and expand to reshape the
@@ -496,6 +523,8 @@ def calc_reshape_args(shape, newshape, subsizes):
 
     # check trailing dimensions, which should be size 1
     for i in range(i, ndim_old):
+        if shape[i] != 1:
+            raise ValueError("Shape mismatch.")
         any_singleton = True
         term.append("s")
     for j in range(j, ndim_new):
